@@ -17,6 +17,7 @@ mod extras;
 mod pipe;
 mod readers;
 mod scan;
+mod scores;
 mod util;
 
 use serde_json::json;
@@ -92,6 +93,8 @@ fn real_main(args: &[String]) {
                 "C13" => dist::record_c13(&mut rec, seed, thorough),
                 "C15" => readers::record_c15(&mut rec, seed, thorough),
                 "C10" => c09::record_c10(&mut rec, seed, thorough),
+                "scores-linear" => scores::record(&mut rec, seed, thorough, true),
+                "scores-reduce" => scores::record(&mut rec, seed, thorough, false),
                 "selftest-panic" => {
                     // used by `./check selftest`: a panic outside every guarded call must end up in the trace
                     let v: Vec<u8> = Vec::new();
@@ -111,6 +114,7 @@ fn real_main(args: &[String]) {
             let out = match prop {
                 "C19" => c19::replay(file),
                 "C04" => c04::replay(file),
+                "C07" | "C01" => scores::replay(file),
                 _ => {
                     eprintln!("unknown property {}", prop);
                     std::process::exit(2);
